@@ -218,7 +218,12 @@ func c11GenCase(t *rapid.T) c11Case {
 			c.Defaults["flag"] = v
 		}
 		if rapid.IntRange(0, 2).Draw(t, label+"hasGlobal") == 0 {
-			c.Defaults["global"] = map[string]interface{}{"g_" + name: "GLOBAL-DEFAULT<" + label + ">", "shared": "GSHARED<" + label + ">"}
+			g := map[string]interface{}{"g_" + name: "GLOBAL-DEFAULT<" + label + ">", "shared": "GSHARED<" + label + ">"}
+			// nested global tables set at different levels
+			if rapid.Bool().Draw(t, label+"nestedGlobal") {
+				g["nest"] = map[string]interface{}{"n_" + name: "GNEST<" + label + ">", "shared": "GNESTSHARED<" + label + ">", "deep": map[string]interface{}{"d_" + name: "GDEEP<" + label + ">"}}
+			}
+			c.Defaults["global"] = g
 		}
 		if depth < 3 && (depth == 0 || rapid.IntRange(0, 1+depth).Draw(t, label+"hasDeps") == 0) {
 			pool := childPool[depth+1]
@@ -277,7 +282,11 @@ func c11GenCase(t *rapid.T) c11Case {
 		user["flag"] = v
 	}
 	if rapid.IntRange(0, 2).Draw(t, "userGlobal") == 0 {
-		user["global"] = map[string]interface{}{"shared": "GSHARED<user>", "fromUser": "GUSER"}
+		ug := map[string]interface{}{"shared": "GSHARED<user>", "fromUser": "GUSER"}
+		if rapid.Bool().Draw(t, "userNestedGlobal") {
+			ug["nest"] = map[string]interface{}{"shared": "GNESTSHARED<user>", "deep": map[string]interface{}{"fromUser": "GDEEPUSER"}}
+		}
+		user["global"] = ug
 	}
 	for _, d := range root.Deps {
 		sec := map[string]interface{}{}
@@ -587,6 +596,60 @@ func c11Judge(tb vt.TB, c c11Case) (lbls []string, nontrivial bool) {
 					return lbls, false
 				}
 			}
+		}
+	}
+	// metamorphic: a sibling's own default tags (its values.yaml) leave what is rendered outside its subtree unchanged.
+	// The tree is first extended so that the question is not vacuous: the sibling gets a dependency of its own (if it has
+	// none) and every other sibling gets a dependency that carries the tag and no condition; then the two trees with and
+	// without "tags" in that sibling's defaults are compared outside its subtree.
+	if len(c.Root.Deps) >= 2 {
+		for _, idx := range []int{0, len(c.Root.Deps) - 1} {
+			var c2, c3 c11Case
+			b, _ := json.Marshal(c)
+			if json.Unmarshal(b, &c2) != nil {
+				break
+			}
+			a := c2.Root.Deps[idx]
+			shared := false // the same chart declared twice under two aliases is ONE chart: its defaults are shared
+			for k, o := range c2.Root.Deps {
+				if k != idx && o.Name == a.Name {
+					shared = true
+				}
+			}
+			if shared {
+				continue
+			}
+			if len(a.Deps) == 0 {
+				a.Deps = append(a.Deps, &c11Chart{Name: "yy", Defaults: map[string]interface{}{"own": "yy"}})
+			}
+			for k, o := range c2.Root.Deps {
+				if k != idx {
+					o.Deps = append(o.Deps, &c11Chart{Name: fmt.Sprintf("zz%d", k), Tags: []string{"t1"}, Defaults: map[string]interface{}{"own": "zz"}})
+				}
+			}
+			b2, _ := json.Marshal(c2)
+			if json.Unmarshal(b2, &c3) != nil {
+				break
+			}
+			a3 := c3.Root.Deps[idx]
+			if a3.Defaults == nil {
+				a3.Defaults = map[string]interface{}{}
+			}
+			a3.Defaults["tags"] = map[string]interface{}{"t1": false, "t2": false}
+			got2, got3 := c11Run(c2, c.User), c11Run(c3, c.User)
+			if got2.err != nil || got3.err != nil {
+				continue
+			}
+			for p, js := range got2.probes {
+				if strings.Contains(p, "/charts/"+a.eff()+"/") || p == c.Root.Name+"/templates/probe.yaml" {
+					continue
+				}
+				if js3, ok := got3.probes[p]; !ok || js3 != js {
+					vt.Violation(tb, "C11:default-tags-of-one-subchart-changed-what-is-rendered-outside-its-subtree", fmt.Sprintf("tags added to the defaults of %s; %s: %s -> %s\n%s", a.eff(), p, js, got3.probes[p], detail()), c2)
+					return lbls, false
+				}
+			}
+			lbls = append(lbls, "sibling-default-tags-metamorphic")
 		}
 	}
 	lbls = append(lbls, fmt.Sprintf("charts-rendered:%d", len(wantP)), fmt.Sprintf("disabled:%d", min(disabled, 3)))
